@@ -21,6 +21,7 @@ import (
 	"os/exec"
 	"path/filepath"
 	"regexp"
+	"sort"
 	"strings"
 	"sync"
 	"time"
@@ -74,6 +75,18 @@ func c05CheckNotices(v func(sig, what string), where string, notices []opshell.C
 			userPort[cb] = true
 		}
 	}
+	seenAddr := map[string]bool{}
+	defer func() {
+		/* A port the user supplied is the port that is printed. */
+		if 0 == len(seenAddr) {
+			return
+		}
+		for cb := range userPort {
+			if !seenAddr[cb] {
+				v("user-port-not-kept/"+where, fmt.Sprintf("%s: the user gave the callback address %q, none of the one-liners names it (they name %v)", where, cb, keysOf(seenAddr)))
+			}
+		}
+	}()
 	for _, cl := range notices {
 		for _, m := range c05PinRE.FindAllStringSubmatch(cl.Line, -1) {
 			pins++
@@ -83,6 +96,7 @@ func c05CheckNotices(v func(sig, what string), where string, notices []opshell.C
 		}
 		for _, m := range c05OneLiner.FindAllStringSubmatch(cl.Line, -1) {
 			addr := m[2]
+			seenAddr[addr] = true
 			if userPort[addr] {
 				continue
 			}
@@ -96,8 +110,8 @@ func c05CheckNotices(v func(sig, what string), where string, notices []opshell.C
 }
 
 // c05Curl runs real curl with a pin.
-func c05Curl(pin, url string) (status int, body []byte) {
-	cmd := exec.Command("curl", "-sk", "--max-time", "20", "--pinnedpubkey", "sha256//"+pin, url)
+func c05Curl(pin, url string, extra ...string) (status int, body []byte) {
+	cmd := exec.Command("curl", append(append([]string{"-sk", "--max-time", "20", "--pinnedpubkey", "sha256//" + pin}, extra...), url)...)
 	var out bytes.Buffer
 	cmd.Stdout = &out
 	err := cmd.Run()
@@ -193,6 +207,13 @@ func c05RunConfig(r *ev.Result, base string, idx int, cfg c05Config, cache strin
 		if st, body := c05Curl(wire, url); 0 != st || !bytes.Contains(body, []byte("curl")) {
 			v("curl-rejects-advertised-pin", fmt.Sprintf("curl --pinnedpubkey with the advertised pin: status %d body %q", st, trunc80(string(body))))
 		}
+		/* ... also a client that speaks nothing newer than TLS 1.2. */
+		if 0 == idx%6 {
+			if st, body := c05Curl(wire, url, "--tls-max", "1.2"); 0 != st || !bytes.Contains(body, []byte("curl")) {
+				v("curl-tls12-rejects-advertised-pin", fmt.Sprintf("curl --tls-max 1.2 --pinnedpubkey with the advertised pin: status %d body %q", st, trunc80(string(body))))
+			}
+			r.Inc("curl_runs", 1)
+		}
 		wrong := []byte(wire)
 		if 'A' == wrong[5] {
 			wrong[5] = 'B'
@@ -210,7 +231,7 @@ func c05RunConfig(r *ev.Result, base string, idx int, cfg c05Config, cache strin
 func c05(r *ev.Result, tier string) {
 	quick := isQuick(tier)
 	listens := []string{"127.0.0.1:0", "127.0.0.1", "[::1]:0", "::1", "0.0.0.0:0", "[::]:0"}
-	callbacks := [][]string{nil, {"cb.example"}, {"cb.example:9999"}, {"cb.example", "other.example:8443"}, {"2001:db8::1"}, {"192.0.2.77"}}
+	callbacks := [][]string{nil, {"cb.example"}, {"cb.example:9999"}, {"cb.example", "other.example:8443"}, {"2001:db8::1"}, {"192.0.2.77"}, {"high.example:50443", "[2001:db8::2]:65535"}}
 	r.Rule = fmt.Sprintf("product of key source {none, cache created, cache reused over a chain of 3 starts} x listen forms %v x callback addresses %v x files {off,on} x template {default,custom}; "+
 		"per configuration: two handshakes, every sha256// value in the start-up notices, in the help re-printed after a shell died and in two /c bodies compared with the pin computed from the wire certificate, "+
 		"port of every one-liner, real curl with the advertised pin and with a one-character variant; plus overlapping instances on one cache path. distinct = distinct configurations (x runs in a chain).", listens, callbacks)
@@ -445,4 +466,13 @@ func c05Replay(kind string, raw json.RawMessage) int {
 	}
 	fmt.Println("not reproduced")
 	return 0
+}
+
+func keysOf(m map[string]bool) []string {
+	var ks []string
+	for k := range m {
+		ks = append(ks, k)
+	}
+	sort.Strings(ks)
+	return ks
 }
